@@ -35,16 +35,18 @@ def run(rep, tier, seed):
     C.check_anchor(rep, "TangentBase::isApprox", "include/manif/impl/tangent_base.h")
     C.check_anchor(rep, "LieGroupBase::isApprox", "include/manif/impl/lie_group_base.h")
     self_groups = SELF_GROUPS + (["SE3"] if tier != "quick" else [])
+    items = []
     for g in groups:
         if g in errs:
             rep.fail("C18/%s/instantiates" % g, "BUILD", "g++", {"compiler_output": errs[g].output[-3000:]},
                      {"failing_input_reproduced": False})
             continue
-        group_is_tangent_test(rep, g, seed)
+        items.append((g, group_is_tangent_test))
         if g in ("SO2", "SE2", "R3") or (tier != "quick" and g in ("SO3", "SE3")):
-            tangent_relation(rep, g, seed)     # TangentBase::isApprox only sees the coefficient vector: DoF 1 and 3 (quick), 6 (thorough)
+            items.append((g, tangent_relation))     # TangentBase::isApprox only sees the coefficient vector: DoF 1 and 3 (quick), 6 (thorough)
         if g in self_groups:
-            self_equal(rep, g, seed)
+            items.append((g, self_equal))
+    rep.parallel(items, lambda r, it: it[1](r, it[0], seed))
 
 
 def group_is_tangent_test(rep, g, seed):
